@@ -1,1 +1,132 @@
-(* Props/C18.v -- stub, to be filled in *)
+(* Props/C18.v -- property theorems only: Theorem / exact lemma / Check (pins the statement) /
+   Print Assumptions.  C18: the finite-difference Jacobian (Mat64::jacobian,
+   Matrix::<Cmplx>::jacobian_cmplx; model: Model/Newton.v jacobian, generic in the element
+   arithmetic [NA O]; f64: d = delta, Cmplx: d = Cmplx::new(delta, 0.0)).
+
+   Statements differ from DESIGN Appendix E where the model forces it:
+   * the model returns the matrix TOGETHER with the list of call points, and the user function
+     may panic ([res]); jacobian_shape therefore states totality (no panic, for every m and n,
+     which is what the pre-repair set_col violated: Legacy/C18Refuted.v) under the hypotheses that
+     the function is total with m components and that division by d does not panic (floats:
+     always; exact field: d <> 0), instead of "jacobian = Ok J -> ...";
+   * jacobian_calls needs (a + d) - d = a, i.e. ring laws: on f64 the restored coordinate may
+     drift by an ulp for non-dyadic data (the float model reproduces the drift; tie).
+   * jacobian_entry likewise needs the ring laws (the perturbed point of column j is x + d e_j
+     only if the earlier coordinates were restored exactly);
+   * in jacobian_affine the map x -> Mx + c is the textbook sum [aff] over the entries
+     M[i,k] = [ment M i k] (Appendix E conventions), the conclusion is equality of records.
+   Not proved: the O(delta) truncation bound for smooth maps and float rounding (tie + search). *)
+From Coq Require Import List Arith ZArith QArith Qcanon.
+From OV Require Import Base.Panic Base.Arith Model.Vector Model.Matrix Model.Newton
+  Proofs.Matrix Proofs.Newton Proofs.NewtonJac Inst.QcInst Legacy.C18Refuted.
+Import ListNotations.
+Local Open Scope nat_scope.
+
+Theorem jacobian_shape : forall (O : NOps) (f : list (NA O) -> res (list (NA O))) (x : list (NA O)) (d : NA O) (m : nat),
+  (forall y, length y = length x -> exists v, f y = Ok v /\ length v = m) ->
+  (forall a : NA O, exists q, div a d = Ok q) ->
+  exists J evs, jacobian O f x d = Ok (J, evs) /\
+                wf J /\ rows J = m /\ cols J = length x /\ length evs = S (length x).
+Proof. intros O f x d m Hf Hd. exact (jacobian_shape_lemma O f x d m Hf Hd). Qed.
+Check jacobian_shape : forall (O : NOps) (f : list (NA O) -> res (list (NA O))) (x : list (NA O)) (d : NA O) (m : nat),
+  (forall y, length y = length x -> exists v, f y = Ok v /\ length v = m) ->
+  (forall a : NA O, exists q, div a d = Ok q) ->
+  exists J evs, jacobian O f x d = Ok (J, evs) /\
+                wf J /\ rows J = m /\ cols J = length x /\ length evs = S (length x).
+Print Assumptions jacobian_shape.
+
+(* the hypotheses hold for the map R^3 -> R^1 of the legacy witness (m < n), and the result is
+   the exact 1 x 3 Jacobian *)
+Example jacobian_shape_nonvacuous :
+  (forall y, length y = length x31 -> exists v, f31 y = Ok v /\ length v = 1%nat) /\
+  (forall a : AQ, exists q0, div a d31 = Ok q0) /\
+  exists J evs, jacobian (NReal AQ) f31 x31 d31 = Ok (J, evs) /\
+                rows J = 1%nat /\ cols J = 3%nat /\ map this (buf J) = [1#1; 2#1; 3#1]%Q.
+Proof.
+  split; [|split].
+  - intros [|a [|b [|c [|? ?]]]] H; try discriminate. cbn. eauto.
+  - intros a. exists (a / d31)%Qc. reflexivity.
+  - exact (proj2 jacobian_legacy_refuted).
+Qed.
+
+(* whatever the function (ragged, panicking): if a matrix is returned it is rows x cols =
+   (components of f(x)) x (length of x) with a buffer of that size *)
+Theorem jacobian_shape_any : forall (O : NOps) (f : list (NA O) -> res (list (NA O))) (x : list (NA O)) (d : NA O) J evs,
+  jacobian O f x d = Ok (J, evs) ->
+  exists f0, f x = Ok f0 /\ rows J = length f0 /\ cols J = length x /\
+             length (buf J) = length f0 * length x.
+Proof. intros O f x d J evs H. exact (jacobian_shape_partial O f x d J evs H). Qed.
+Check jacobian_shape_any : forall (O : NOps) (f : list (NA O) -> res (list (NA O))) (x : list (NA O)) (d : NA O) J evs,
+  jacobian O f x d = Ok (J, evs) ->
+  exists f0, f x = Ok f0 /\ rows J = length f0 /\ cols J = length x /\
+             length (buf J) = length f0 * length x.
+Print Assumptions jacobian_shape_any.
+
+Theorem jacobian_calls : forall (O : NOps), RingLaws (NA O) ->
+  forall (f : list (NA O) -> res (list (NA O))) (x : list (NA O)) (d : NA O) J evs,
+  jacobian O f x d = Ok (J, evs) ->
+  evs = x :: map (perturbed O x d) (seq 0 (length x)).
+Proof. intros O RL f x d J evs H. exact (jacobian_calls_lemma O RL f x d J evs H). Qed.
+Check jacobian_calls : forall (O : NOps), RingLaws (NA O) ->
+  forall (f : list (NA O) -> res (list (NA O))) (x : list (NA O)) (d : NA O) J evs,
+  jacobian O f x d = Ok (J, evs) ->
+  evs = x :: map (perturbed O x d) (seq 0 (length x)).
+Print Assumptions jacobian_calls.
+
+Example jacobian_calls_nonvacuous :
+  exists J evs, jacobian (NReal AQ) f31 x31 d31 = Ok (J, evs) /\
+    map (map this) evs = [[1#1; 2#1; 3#1]; [1025#1024; 2#1; 3#1]; [1#1; 2049#1024; 3#1]; [1#1; 2#1; 3073#1024]]%Q.
+Proof. do 2 eexists. split; [vm_compute; reflexivity|]. vm_compute. reflexivity. Qed.
+
+(* entry (i, j) is the forward difference quotient ( f_i(x + d e_j) - f_i(x) ) / d *)
+Theorem jacobian_entry : forall (O : NOps), RingLaws (NA O) ->
+  forall (f : list (NA O) -> res (list (NA O))) (x : list (NA O)) (d : NA O) J evs,
+  jacobian O f x d = Ok (J, evs) ->
+  exists f0, f x = Ok f0 /\ rows J = length f0 /\ cols J = length x /\
+    forall i j, i < length f0 -> j < length x ->
+      exists fj q, f (perturbed O x d j) = Ok fj /\
+                   div (sub (nth i fj zero) (nth i f0 zero)) d = Ok q /\ mget J i j = Ok q.
+Proof. intros O RL f x d J evs H. exact (jacobian_entry_lemma O RL f x d J evs H). Qed.
+Check jacobian_entry : forall (O : NOps), RingLaws (NA O) ->
+  forall (f : list (NA O) -> res (list (NA O))) (x : list (NA O)) (d : NA O) J evs,
+  jacobian O f x d = Ok (J, evs) ->
+  exists f0, f x = Ok f0 /\ rows J = length f0 /\ cols J = length x /\
+    forall i j, i < length f0 -> j < length x ->
+      exists fj q, f (perturbed O x d j) = Ok fj /\
+                   div (sub (nth i fj zero) (nth i f0 zero)) d = Ok q /\ mget J i j = Ok q.
+Print Assumptions jacobian_entry.
+(* non-vacuity: jacobian_calls_nonvacuous above exhibits an input with jacobian ... = Ok *)
+
+(* exact on affine maps over a field: the Jacobian of x -> Mx + c is M itself *)
+Theorem jacobian_affine : forall (O : NOps), FieldLaws (NA O) ->
+  forall (M : matrix (NA O)) (c x : list (NA O)) (d : NA O),
+  d <> zero -> wf M -> length x = cols M ->
+  exists evs, jacobian O (fun p => Ok (aff O M c p)) x d = Ok (M, evs).
+Proof. intros O FL M c x d Hd W Lx. exact (jacobian_affine_eq O FL M c x d Hd W Lx). Qed.
+Check jacobian_affine : forall (O : NOps), FieldLaws (NA O) ->
+  forall (M : matrix (NA O)) (c x : list (NA O)) (d : NA O),
+  d <> zero -> wf M -> length x = cols M ->
+  exists evs, jacobian O (fun p => Ok (aff O M c p)) x d = Ok (M, evs).
+Print Assumptions jacobian_affine.
+
+(* the hypotheses hold for a 2 x 3 matrix (m < n) at Qc, delta = 1/1024 *)
+Example jacobian_affine_nonvacuous :
+  let M := @mkM AQ [q 1 1; q 2 1; q 3 1; q (-1) 2; q 0 1; q 5 4] 2 3 in
+  d31 <> zero /\ wf M /\ length x31 = cols M /\
+  exists evs, jacobian (NReal AQ) (fun p => Ok (aff (NReal AQ) M [q 1 2; q 7 1] p)) x31 d31 = Ok (M, evs).
+Proof.
+  intros M. assert (Hd : d31 <> zero) by (intros H; apply (f_equal this) in H; discriminate).
+  repeat split; auto. exact (jacobian_affine (NReal AQ) AQ_FieldLaws M _ x31 d31 Hd eq_refl eq_refl).
+Qed.
+
+(* the legacy variant (set_col guard `rows <= col`) panics on the same input *)
+Theorem jacobian_legacy_is_refuted :
+  jacobian_legacy (NReal AQ) f31 x31 d31 = Panic Guard /\
+  exists J evs, jacobian (NReal AQ) f31 x31 d31 = Ok (J, evs) /\
+                rows J = 1%nat /\ cols J = 3%nat /\ map this (buf J) = [1#1; 2#1; 3#1]%Q.
+Proof. exact jacobian_legacy_refuted. Qed.
+Check jacobian_legacy_is_refuted :
+  jacobian_legacy (NReal AQ) f31 x31 d31 = Panic Guard /\
+  exists J evs, jacobian (NReal AQ) f31 x31 d31 = Ok (J, evs) /\
+                rows J = 1%nat /\ cols J = 3%nat /\ map this (buf J) = [1#1; 2#1; 3#1]%Q.
+Print Assumptions jacobian_legacy_is_refuted.
